@@ -15,7 +15,7 @@ pub enum Call {
     Similarity(String, String),
     WordMatch { rword: String, qword: String, fin: bool },
     /// store of `titles`, then the queries in order (thread-local matcher instances grow)
-    Search { lang: &'static str, titles: Vec<String>, limit: usize, queries: Vec<String> },
+    Search { lang: &'static str, titles: Vec<String>, limit: usize, queries: Vec<String>, clear_after: Option<usize> },
 }
 
 #[derive(Clone, Debug, Hash)]
@@ -104,7 +104,8 @@ pub fn decode(src: &mut Source) -> Box<dyn Case> {
                         q
                     })
                     .collect();
-                calls.push(Call::Search { lang, titles, limit, queries });
+                let clear_after = if src.chance(1, 4) { Some(src.below(nq + 1)) } else { None };
+                calls.push(Call::Search { lang, titles, limit, queries, clear_after });
             }
         }
     }
@@ -121,7 +122,7 @@ impl Case for C19Case {
             Call::Distance(a, b) => json!({"distance": [a, b], "lens": [a.chars().count(), b.chars().count()]}),
             Call::Similarity(a, b) => json!({"similarity": [a, b], "lens": [a.chars().count(), b.chars().count()]}),
             Call::WordMatch { rword, qword, fin } => json!({"word_match": {"record": rword, "query": qword, "query_finished": fin}}),
-            Call::Search { lang, titles, limit, queries } => json!({"search": {"lang": lang, "records": titles.len(), "first_titles": titles.iter().take(4).collect::<Vec<_>>(), "limit": limit, "queries": queries}}),
+            Call::Search { lang, titles, limit, queries, clear_after } => json!({"search": {"lang": lang, "clear_store_after_query": clear_after, "records": titles.len(), "first_titles": titles.iter().take(4).collect::<Vec<_>>(), "limit": limit, "queries": queries}}),
         }).collect::<Vec<_>>()})
     }
     fn key(&self) -> u64 {
@@ -158,10 +159,18 @@ impl Case for C19Case {
                     let tq = Text::from_str(qword).set_char_classes(&en).fin(*fin);
                     word_match(&tr.view(0), &tq.view(0));
                 }
-                Call::Search { lang, titles, limit, queries } => {
+                Call::Search { lang, titles, limit, queries, clear_after } => {
                     let recs: Vec<Rec> = titles.iter().enumerate().map(|(i, t)| (i + 1, t.clone(), i % 7)).collect();
-                    let store = build_store(lang, &recs, *limit);
-                    for q in queries {
+                    let mut store = build_store(lang, &recs, *limit);
+                    for (qi, q) in queries.iter().enumerate() {
+                        if *clear_after == Some(qi) {
+                            // clear, ask, refill half, ask again: counters and postings must agree at every point
+                            store.clear();
+                            search(&store, q);
+                            for (id, t, r) in recs.iter().take(recs.len() / 2 + 1) {
+                                store.add(Record::new(*id, t, *r, &store.lang));
+                            }
+                        }
                         search(&store, q);
                     }
                 }
